@@ -343,7 +343,7 @@ def fattree_case(rng, stats, bad, k, e2e):
                 stats["reverse_walks"] += 1
             node = path[0]
             walked = [node]
-            while node != path[-1] and len(walked) <= len(path) + 1:
+            while node != path[-1] and len(walked) <= len(path) + 1 and node in G.nodes:
                 nd = G.nodes[node]
                 port = nd["flow_to_port"].get(fid)
                 if port is None:
